@@ -57,6 +57,9 @@ type Exec struct {
 	vtrees            map[string]*valueTree
 	borrow            map[types.Object]ast.Expr
 	inoutRecv         *types.Var
+	arraySlices       bool
+	curRet            string // exit being checked: ordinal of the return statement, or "end"
+	retOrd            map[*ast.ReturnStmt]int
 }
 
 type localSig struct {
@@ -250,6 +253,10 @@ func (x *Exec) stmt(st *State, fr *Frame, s ast.Stmt, k func(*State)) {
 				}
 				res = append(res, v)
 			}
+		}
+		x.curRet = "end"
+		if k, ok := x.retOrd[s]; ok {
+			x.curRet = fmt.Sprint(k)
 		}
 		fr.ret(st, res)
 	case *ast.IfStmt:
